@@ -464,7 +464,8 @@ func exec(line string) hx.Result {
 			// the model side (Bron-Kerbosch and the edge-array loop on 33 000 pairs in extracted
 			// Coq) costs ~17 s per case: only the pure star is compared with the model, the other
 			// shapes are validated here only
-			if o := observeBig(c, t, &viol); len(t.Ints) == 2 && t.Ints[1] == 0 {
+			// (token B:<leaves>.0.1, emitted in the thorough tier)
+			if o := observeBig(c, t, &viol); len(t.Ints) == 3 && t.Ints[1] == 0 && t.Ints[2] == 1 {
 				big += " big=" + o
 			}
 		}
